@@ -286,3 +286,10 @@ META = dict(
     ],
     technique="symbolic execution of the real Cells methods on z3 reals (symx), solver verdict per path; Euclidean brute-force oracle",
 )
+
+MANIFEST = dict(
+    text='For C14: Cells.add_cell/remove_cell/get_near_cells/assign_cells for ALL real coordinates (unbounded), cell sizes 2 and 5 (1..10 thorough), against a Euclidean brute-force oracle, over every add/remove/move/readd sequence up to the stated length; plus the debump call site (real Debump.set_dihedral_angle with the rotation result abstracted to arbitrary new coordinates) keeping the cell map consistent with the coordinates.',
+    note='Trusted: z3, the symx int()-truncation, numpy-subset and association-list dict models (validated against CPython each run). Coordinates are exact reals (add_cell only compares with 0 and truncates, exact on doubles). Histories bounded (quick: 2 atoms x 1 op; thorough: 2 atoms x 2 ops, 3 atoms x 1 op). The hydrogens/* call sites of the remove/add protocol are outside the claim.',
+    technique='symbolic execution of real code on z3 Real/Int proxies (symx) + SMT verdict per path',
+    design='DESIGN.md section 3 C14',
+)
